@@ -243,6 +243,8 @@ func propC16(c *Ctx) {
 
 	rtr := c.Rule("throw-reentry", "the unwinding routine is not re-entered from the functions it calls (a nested unwinding with a half-switched frame state records positions of the wrong frame, duplicated and out of order)", 1)
 	ruleThrowReentry(c, rtr)
+	rmn := c.Rule("module-name-one", "the module source is compiled under the name the importer resolved (the file set names the file the positions lie in)", 1)
+	ruleModuleNameOne(c, rmn)
 	rcf := c.Rule("copy-fields", "copying an error value keeps all of its fields: RuntimeError.Copy carries the file set (without it a derived error prints '-' for every trace position) and the trace", 2)
 	ruleCopyFields(c, rcf, "Error", "RuntimeError")
 
